@@ -154,7 +154,7 @@ class KindEval:
                     return RAWVB
                 if cls.key == "puresnmp.varbind:PyVarBind":
                     return PY
-                if cls.key == "puresnmp.util:BulkResult":
+                if cls.key == self.ctx.u.canonical("puresnmp.util:BulkResult"):
                     return BULK
             got = self.ctx.r.resolve_expr(mod, ann)
             if got is not None and got.kind == "value" and got.module is not None:
@@ -466,7 +466,7 @@ class KindEval:
             if cls is not None:
                 if cls.name == "ObjectIdentifier":
                     return RAWOID
-                if cls.key == "puresnmp.util:BulkResult" and len(call.args) == 2:
+                if cls.key == self.ctx.u.canonical("puresnmp.util:BulkResult") and len(call.args) == 2:
                     return ("bulk", self.kind(meth, call.args[0], env), self.kind(meth, call.args[1], env))
                 if cls.key == "puresnmp.varbind:PyVarBind":
                     kinds = [self.kind(meth, a, env) for a in call.args]
